@@ -229,6 +229,13 @@ theorem dsem_limitLawful (coll : String → Nat → Option DErr) (hc : CollLawfu
     dsem.LimitLawful coll DErr.isLimit :=
   dsemX_limitLawful _ coll hc (noEx_lawful coll)
 
+/-- the graph facts of a line (index entries, procedure results) play no part in the limit laws -/
+theorem dsemG_limitLawful (G : GraphFns) (X : (String → Nat → Option DErr) → ExFn)
+    (coll : String → Nat → Option DErr) (hc : CollLawful coll) (hX : ExLawful X coll) :
+    (dsemG G X).LimitLawful coll DErr.isLimit :=
+  let h := dsemX_limitLawful X coll hc hX
+  ⟨h.park, h.eval, h.aggPark, h.aggPark_nil, h.aggCheck, h.aggFinal⟩
+
 theorem ofOpts_lawful (o : Opts) (rowFires timeFires : Site → Nat → Bool) :
     (LimEnv.ofOpts DErr.limit o rowFires timeFires).Lawful DErr.isLimit where
   coll stage n e h := by
